@@ -93,7 +93,15 @@ def j1(led, rid, ctx):
             if c.name == "pop" and c.args:
                 Rg = Rg or resolver(g)
                 if "delete_ids" in Rg.operand(c.args[0]).fields():
-                    who.add((g.parent or g.defn).rsplit("::", 1)[-1])
+                    nm = (g.parent or g.defn).rsplit("::", 1)[-1]
+                    # a private helper the storing functions are split into counts as its callers
+                    if nm not in ("add_asserting_nogood", "add_permanent_nogood"):
+                        callers = {(h.parent or h.defn).rsplit("::", 1)[-1] for h in lib.fns.values() if h.file == g.file
+                                   for c2 in h.calls if any(x is g for x in lib.callees(c2))}
+                        if callers and callers <= {"add_asserting_nogood", "add_permanent_nogood"}:
+                            who |= callers
+                            continue
+                    who.add(nm)
     led.check(who <= {"add_asserting_nogood", "add_permanent_nogood"} and who, rid, "delete_ids-reused-when-storing",
               None, "freed ids are reused by %s" % sorted(who), "freed nogood ids are popped in %s" % sorted(who))
     j1_table(led, rid, ctx)
@@ -436,7 +444,8 @@ def j10(led, rid, ctx):
     """a permanent nogood is stored in its preprocessed form (root-satisfied predicates removed), so
     that its two watched predicates are not already true"""
     lib = ctx.lib
-    f = lib.method("NogoodPropagator", "add_permanent_nogood")
+    from .shared import method_view as _mv
+    f = _mv(lib, "NogoodPropagator", "add_permanent_nogood", keep=("preprocess_nogood", "add_watcher", "is_nogood_propagating", "debug_is_properly_watched", "propagate"), same_type_only=True)
     R = resolver(f)
     cfg = f.cfg
     pps = f.calls_named("preprocess_nogood")
